@@ -47,11 +47,11 @@ def format_url(
     if args is not None:
         iterator = sorted(args.items()) if isinstance(args, dict) else iter(args)
 
-        items = (
+        items = [
             format_query_argument(k, v, format_arg_value)
             for k, v in iterator
             if v is not None and v is not False
-        )
+        ]
 
         if items:
             url += "?" + ("&".join(items))
